@@ -191,6 +191,16 @@ def run(res: Results, idx: Index, tier: str) -> None:
             if inst.rule == rid and ("raise" in inst.detail or "reject" in inst.detail or inst.status != "OK"):
                 n_x += 1
                 res.add("R-C16d", inst.status, inst.site, f"{rid}::{inst.key}", f"[{prop} {rid}] {inst.detail}", inst.func)
+    # a function body that needs a dimension symbol none of its inputs carries must fail with "no origin registered": the
+    # function-body context may not be handed the enclosing graph's origin tables (C03 R-C03f, function_scope instances)
+    from . import c03
+    sub3 = Results("C03", tier)
+    setattr(sub3, "_nested_xref", True)
+    c03.rule_f(sub3, idx)
+    for inst in sub3.instances:
+        if inst.rule == "R-C03f" and "function_scope.py" in inst.key:
+            n_x += 1
+            res.add("R-C16d", inst.status, inst.site, f"R-C03f::{inst.key}", f"[C03 R-C03f] {inst.detail}", inst.func)
     res.analysed["cross_referenced_rejections"] = n_x
     if n_x < 4:
         raise AnalysisError(f"only {n_x} rejection instances cross-referenced from C06 R-C06b / C04 R-C04b (expected >= 4)")
